@@ -538,7 +538,15 @@ func (x *Exec) VerifyFunc(key string) (err error) {
 					}
 				}
 				if obligation {
-					return fmt.Errorf("cannot bind call-site annotation %q of %s: no such call in the function", site, key)
+					// reported as a machinery error, but the rest of the function is still verified: a violated
+					// obligation elsewhere in it is the more useful report (and dominates the exit code)
+					msg := fmt.Sprintf("cannot bind call-site annotation %q of %s: no such call in the function", site, key)
+					defer func() {
+						if err == nil {
+							err = fmt.Errorf("%s", msg)
+						}
+					}()
+					continue
 				}
 				// a ghost assignment at a call that no longer exists simply never happens; the obligations that
 				// read the ghost decide (they fail unless they hold without it)
